@@ -9,6 +9,8 @@ from vprim import implies, is_array, shape_of
 
 QI = {q + '-' + i: {'q': q, 'inc': i} for q in QUERIES for i in INCS}
 QIU = {q + '-' + i + '-' + un: {'q': q, 'inc': i, 'unit': un} for q in QUERIES for i in INCS for un in UNITS}
+# angles in further units (arcmin, hourangle) for a scalar query: code that special-cases deg / rad is wrong exactly there
+QIU.update({'scalar-absent-' + un: {'q': 'scalar', 'inc': 'absent', 'unit': un} for un in ('arcmin', 'hourangle')})
 
 
 def agrees(region, pixcoord, result, k, l, is_open, is_closed):
@@ -268,7 +270,7 @@ class compound_contains:
     }
 
 
-@contract('regions/core/core.py::PixelRegion.__contains__', props=['C01'])
+@contract('regions/core/core.py::PixelRegion.__contains__', props=['C01', 'C08'])
 class region_in_operator:
     cases = {q: {'q': q} for q in QUERIES}
 
